@@ -28,6 +28,8 @@ def units(ctx):
         us.append(contract_unit(c, world_setup=regex.setup))
     for c in regex.plumbing_contracts():
         us.append(contract_unit(c, world_setup=regex.setup_plumbing))
+    for c in regex.wrapper_contracts():
+        us.append(contract_unit(c, world_setup=regex.setup_wrappers))
     # string arguments reach the functions code point for code point
     from contracts import yaqltypes
     us += [contract_unit(c, world_setup=yaqltypes.setup)
